@@ -277,10 +277,12 @@ func pathContains(path []unsafe.Pointer, item unsafe.Pointer) bool {
 }
 
 // isPrintableASCII reports whether s contains only printable ASCII.
+// DEL (0x7f) is not printable: strconv.AppendQuote would write it as \x7f,
+// which is not a JSON escape.
 func isPrintableASCII(s string) bool {
 	for i := 0; i < len(s); i++ {
 		b := s[i]
-		if b < 0x20 || b >= 0x80 {
+		if b < 0x20 || b >= 0x7f {
 			return false
 		}
 	}
